@@ -56,7 +56,7 @@ type Strategy struct {
 	EnvBias   float64 // probability of preferring an environment action when both kinds are enabled
 	TimeRace  float64 // probability of advancing the clock although other work exists
 	TimeSteps []time.Duration
-	// Starve: a goroutine parked at a site whose name contains this string is only run when nothing else (goroutine or
+	// Starve: a goroutine parked at a site whose name contains this string (or one of several, separated by '|') is only run when nothing else (goroutine or
 	// environment action) is enabled: a loop that has fallen behind, as under a burst or a slow dependency
 	Starve string `json:",omitempty"`
 }
@@ -192,8 +192,13 @@ func (s *Sim) Step(w World, allowTime bool) bool {
 	env := w.EnvActions()
 	if s.Strat.Starve != "" {
 		var keep []int
+		alts := strings.Split(s.Strat.Starve, "|")
 		for _, i := range gi {
-			if !strings.Contains(s.parked[i].Site, s.Strat.Starve) {
+			starved := false
+			for _, a := range alts {
+				starved = starved || strings.Contains(s.parked[i].Site, a)
+			}
+			if !starved {
 				keep = append(keep, i)
 			}
 		}
